@@ -227,6 +227,7 @@ func c03Doctor(c *mc.Ctx) {
 	n := 1 + c.Choose(7)
 	dupAt := c.Choose(n)
 	pk := [][]uint32{{0}, {}}[c.Choose(2)]
+	w2 := 1 + c.Choose(3) // columns of the parent commit's table: narrower than, as wide as, wider than the head's
 	c.Shard()
 	var rows [][]string
 	for i := 0; i < n; i++ {
@@ -235,7 +236,7 @@ func c03Doctor(c *mc.Ctx) {
 	corrupted := append([][]string{}, rows[:dupAt+1]...)
 	corrupted = append(corrupted, rows[dupAt])
 	corrupted = append(corrupted, rows[dupAt+1:]...)
-	desc := fmt.Sprintf("rows=%s with row %d stored twice, pk=%v (block size scaled to 3)", shortRows(rows), dupAt, pk)
+	desc := fmt.Sprintf("rows=%s with row %d stored twice, pk=%v (block size scaled to 3); the parent commit's table has %d column(s)", shortRows(rows), dupAt, pk, w2)
 	c.Logf("%s", desc)
 	db := stores.NewMemStore()
 	rs := stores.NewMapRefStore()
@@ -247,8 +248,22 @@ func c03Doctor(c *mc.Ctx) {
 	// the branch has two commits, both with a corrupted table: the resolver goes through both issues
 	// with one sorter (Reset in between)
 	rows2 := [][]string{{"p", "vp"}, {"q", "vq"}, {"r", "vr"}, {"s", "vs"}}
+	cols2 := []string{"k", "v"}
+	switch w2 {
+	case 1:
+		rows2 = [][]string{{"p"}, {"q"}, {"r"}, {"s"}}
+		cols2 = []string{"k"}
+	case 3:
+		cols2 = []string{"k", "v", "w"}
+		if len(pk) == 0 {
+			// keyless: rows that differ only in the last column
+			rows2 = [][]string{{"p", "vp", "1"}, {"p", "vp", "2"}, {"r", "vr", "1"}, {"r", "vr", "2"}}
+		} else {
+			rows2 = [][]string{{"p", "vp", "1"}, {"q", "vp", "1"}, {"r", "vr", "2"}, {"s", "vr", "2"}}
+		}
+	}
 	corrupted2 := [][]string{rows2[0], rows2[0], rows2[1], rows2[2], rows2[3]}
-	bad2, err := saveRawTable(db, []string{"k", "v"}, pk, corrupted2, 3, len(corrupted2))
+	bad2, err := saveRawTable(db, cols2, pk, corrupted2, 3, len(corrupted2))
 	if err != nil {
 		panic(err)
 	}
@@ -312,7 +327,7 @@ func c03Doctor(c *mc.Ctx) {
 			c.Fail("doctor-structure", "table of the parent commit produced by doctor resolve: %s; %s", msg, desc)
 			return
 		}
-		if msg := checkStoredRows(db, com2.Table, []string{"k", "v"}, ipk, rows2); msg != "" {
+		if msg := checkStoredRows(db, com2.Table, cols2, ipk, rows2); msg != "" {
 			c.Fail("doctor-rows", "table of the parent commit produced by doctor resolve (same resolver): %s; %s", msg, desc)
 			return
 		}
@@ -329,7 +344,7 @@ func init() {
 		ID:    "C03",
 		Level: "exploration",
 		Rule: "producer ingest, scaled block size 3 (build-time overlay of the literal 255): every key subset of a 10-key universe (1024 tables of 0..10 rows = 0..4 blocks, incl. the all-empty first row), crossed with up to d deviations over {keyless, descending file order, a duplicate key, run size, workers 1..3, delimiter}; " +
-			"producer ingest, composite keys: 3..4-column tables of 0..5 rows under every ordered key subset of 3 columns (all 6 orders of a 3-column key); producer ingest, real block size: 0,1,2,254,255,256,509,510,511,765 rows x key {[0], none, [1,0]} x all-empty first row x run size x workers; producer doctor: every table of 1..7 rows with each row stored twice, as the head of a branch whose parent commit carries another corrupted table (one resolver, its sorter reused), keyed and keyless, is diagnosed and resolved. " +
+			"producer ingest, composite keys: 3..4-column tables of 0..5 rows under every ordered key subset of 3 columns (all 6 orders of a 3-column key); producer ingest, real block size: 0,1,2,254,255,256,509,510,511,765 rows x key {[0], none, [1,0]} x all-empty first row x run size x workers; producer doctor: every table of 1..7 rows with each row stored twice, as the head of a branch whose parent commit carries another corrupted table of 1, 2 or 3 columns (one resolver, its sorter reused across tables of different widths), keyed and keyless, is diagnosed and resolved. " +
 			"Every produced table is checked by an independent structural oracle (row count, full blocks, strictly increasing keys, block stored under hash of content, block-index entries = hash(key)||hash(row) recomputed by an independent encoder, sorted-offset permutation, lookup of every key, table index = first keys, profile) " +
 			"and by the repository's doctor.Diagnose (must report nothing). Merge-result and wire-receipt producers run the same oracle inside C05 and C07. non-trivial = a table was produced; distinct by case description",
 		Assumptions: []string{"the scaled configuration changes only the literal block size in sorter.go, block.go, table.go (self-checked: blocks of exactly 3 rows are demanded by the oracle)", "tables beyond 4 blocks are not enumerated"},
